@@ -148,6 +148,50 @@ def values(e, model, names=NAMES):
     return out
 
 
+def leaf_family():
+    """Every probability leaf over A, B, C: 1-2 children, 0-2 parents, optional +/- marks, 0-2 intervention subscripts with either
+    mark carried by all variables (prints as P[..](..)) or by the first child only (prints with @), with and without a population."""
+    import itertools as itt
+    dsl = y0mod("y0.dsl")
+    names = ["A", "B", "C"]
+    out = []
+    ivsets = [()]
+    for k in (1, 2):
+        for sub in itt.combinations(names, k):
+            for stars in itt.product([False, True], repeat=k):
+                t = tuple(dsl.Intervention(name=n, star=s) for n, s in zip(sub, stars))
+                ivsets.append(t)
+                if k == 2:
+                    ivsets.append(t[::-1])      # the other insertion order of the same frozenset
+    for nc in (1, 2):
+        for ch in itt.combinations(names, nc):
+            rest = [n for n in names if n not in ch]
+            for npa in range(0, len(rest) + 1):
+                for pa in itt.combinations(rest, npa):
+                    for mark in (None, 0, 1, 2):        # which variable (if any) carries a +/- mark, alternating the sign
+                        allv = list(ch) + list(pa)
+                        if mark is not None and mark >= len(allv):
+                            continue
+                        for ivs in ivsets:
+                            for mode in (("all", "first") if ivs else ("none",)):
+                                def mk(n, pos, with_ivs):
+                                    # built with the public operators only: +v / -v for value marks, v @ subscripts for interventions
+                                    v = dsl.Variable(n)
+                                    if mark == pos:
+                                        v = +v if (pos + len(ivs)) % 2 else -v
+                                    return v @ ivs if with_ivs else v
+                                try:
+                                    cvs = tuple(mk(n, i, mode == "all" or (mode == "first" and i == 0)) for i, n in enumerate(ch))
+                                    pvs = tuple(mk(n, len(ch) + i, mode == "all") for i, n in enumerate(pa))
+                                    d = dsl.Distribution(children=cvs, parents=pvs)
+                                except (ValueError, TypeError):
+                                    continue
+                                out.append(dsl.Probability(d))
+                                out.append(dsl.PopulationProbability(population=dsl.Population("Pi1"), distribution=d))
+    return out
+
+
+
 class Pool:
     """Random small expressions over A, B, C (binary), optionally with interventions, populations and Q factors."""
     def __init__(self, seed, rich=True):
@@ -172,6 +216,13 @@ class Pool:
                 if iv.name not in {v.name for v in (*a.children, *a.parents)}:
                     extra.append(a.intervene(iv))
             extra.append(dsl.QFactor(domain=frozenset([V[0]]), codomain=frozenset([V[1]])))
+            # a sample of the full leaf family (value marks, several subscripts, subscripts on the first child only, populations);
+            # leaves that intervene on one of their own variables are left out (their reading is not fixed by the properties)
+            # and so are cross-world leaves (subscripts on some variables only): the table-per-regime reading of `ev` is single-world
+            fam = [l for l in leaf_family()
+                   if not ({v.name for v in (*l.children, *l.parents)} & {i.name for v in (*l.children, *l.parents) for i in getattr(v, "interventions", ())})
+                   and len({frozenset(getattr(v, "interventions", ())) for v in (*l.children, *l.parents)}) == 1]
+            extra += self.rng.sample(fam, 40)
             atoms += extra
         self.atoms = atoms
 
